@@ -95,6 +95,164 @@ def plugin_failure_case(mode: str, hook_name: str) -> dict:
         return {'mode': mode, 'hook': hook_name, 'error': f'{type(e).__name__}: {e}'}
 
 
+USER_HOOKS = ('on_finished', 'on_end_run', 'on_change_state')
+SETTLE_ROUNDS = 6        # turns of the ready queue after the state attribute first reads 'finished' before the flag is sampled
+#                          (the mode is switched off by a hook of the `finish` transition, which is started right after the state changes)
+
+
+def user_plugin_case(api: str, hook_name: str, fault: str, n: int) -> dict:
+    """A user plugin is registered BEFORE the non-interactive request.  Its hook `hook_name` — one of the hooks called when the run ends
+    (on_end_run; on_finished; on_change_state with 'finished') — misbehaves during that run: it suspends `n` turns of the loop and then
+    returns (fault 'slow') or raises (fault 'raises').  Whatever a third-party hook does: once the run has finished the mode is over — the
+    flag is False (sampled a few loop turns after the state attribute first reads 'finished', possibly while the user's hook is still
+    suspended, and again after everything settled), and the next plain run() is interactive."""
+    import asyncio
+    from .. import fakes, loop as ctl
+    from nextline.spawned import RunResult
+
+    async def main() -> dict:
+        from nextline.plugin.spec import hookimpl
+        sc = lifecycle.Scenario(0, 1, False, False)
+        await sc.setup()
+        nl = sc.nl
+        st = {'armed': False, 'entered': 0, 'suspended': False, 'left': 0}
+
+        async def misbehave() -> None:
+            if not st['armed']:
+                return
+            st['armed'] = False
+            st['entered'] += 1
+            st['suspended'] = True
+            try:
+                for _ in range(n):
+                    await asyncio.sleep(0)
+            finally:
+                st['suspended'] = False
+                st['left'] += 1
+            if fault == 'raises':
+                raise RuntimeError(f'plugin failure in {hook_name} (injected by the harness)')
+
+        async def on_finished(self: Any, context: Any) -> None:
+            await misbehave()
+
+        async def on_end_run(self: Any, context: Any, event: Any) -> None:
+            await misbehave()
+
+        async def on_change_state(self: Any, context: Any, state_name: str) -> None:
+            if state_name == 'finished':
+                await misbehave()
+        impl = {'on_finished': on_finished, 'on_end_run': on_end_run, 'on_change_state': on_change_state}[hook_name]
+        User = type('UserPlugin', (), {hook_name: hookimpl(impl)})
+        user = User()
+        await sc.op('start')
+        flags: list = []
+
+        async def watch_flag() -> None:
+            async for b in nl.subscribe_continuous_enabled():
+                flags.append(bool(b))
+        wf = asyncio.ensure_future(watch_flag())
+        await lifecycle.settle()
+        nl.register(user)                       # before the request
+        st['armed'] = True
+        rep = await sc.op(api)
+        out: dict = {'api': api, 'hook': hook_name, 'fault': fault, 'n': n, 'accepted': any(t.startswith('cs:') for t in rep.split()),
+                     'enabled_during': nl.continuous_enabled, 'state_during': nl.state}
+        rep = await sc.op('prompt')
+        out['commands_at_prompt'] = rep.split().count('cmd')
+        obs: dict = {}
+
+        async def watch_state() -> None:
+            # a client that polls the state attribute
+            for _ in range(5000):
+                if nl.state == 'finished':
+                    break
+                await asyncio.sleep(0)
+            else:
+                obs['never_finished'] = nl.state
+                return
+            obs['enabled_when_first_finished'] = nl.continuous_enabled
+            trail = []
+            for k in range(max(n, 0) + 4 * SETTLE_ROUNDS):
+                if k == SETTLE_ROUNDS:
+                    obs['enabled_at_finished'] = nl.continuous_enabled
+                    obs['user_hook_suspended_then'] = st['suspended']
+                trail.append(1 if nl.continuous_enabled else 0)
+                await asyncio.sleep(0)
+            obs['rounds_until_off'] = trail.index(0) if 0 in trail else None
+        ws = asyncio.ensure_future(watch_state())
+        for c in sc.world.live():
+            c.exit(RunResult(ret=5), exitcode=0)
+        await asyncio.wait_for(ws, timeout=600)          # (virtual time; bounded by its own loops)
+        await lifecycle.settle()
+        sc._collect()                           # (run_continue_and_wait() has returned by now: the driver is free for the next call)
+        out['requester_blocked_after'] = [name for name, _ in sc.pending]
+        out.update(obs)
+        out.update(hook_entered=st['entered'], hook_left=st['left'], state_after=nl.state, enabled_after=nl.continuous_enabled,
+                   live_after=len(sc.world.live()), published_by_end_of_run=list(flags))
+        # the next, plain run must be interactive: its prompt stays unanswered (the user's plugin is gone by then)
+        nl.unregister(user)
+        await sc.op('reset - - - -')
+        rep = await sc.op('run')
+        out['plain_run_started'] = any(t.startswith('cs:') for t in rep.split())
+        out['enabled_in_plain_run'] = nl.continuous_enabled
+        rep = await sc.op('prompt')
+        out['commands_in_plain_run'] = rep.split().count('cmd')
+        out['enabled_in_plain_run'] = out['enabled_in_plain_run'] or nl.continuous_enabled
+        for c in sc.world.live():
+            c.exit(RunResult(ret=None), exitcode=0)
+        await lifecycle.settle()
+        try:
+            await asyncio.wait_for(nl.close(), timeout=5)
+        except BaseException:  # noqa
+            pass
+        await lifecycle.settle()
+        out['published'] = flags
+        wf.cancel()
+        return out
+    fakes.install()
+    try:
+        return ctl.run(main, ctl.Fifo())
+    except (Exception, ctl.StepBudgetExceeded) as e:  # noqa
+        return {'api': api, 'hook': hook_name, 'fault': fault, 'n': n, 'error': f'{type(e).__name__}: {e}'}
+
+
+def user_plugin_oracle(r: dict) -> list[str]:
+    if 'error' in r:
+        return [f'scenario failed: {r["error"]}']
+    how = f"suspends {r['n']} loop turn(s) and then {'raises' if r['fault'] == 'raises' else 'returns'}"
+    who = (f"a user plugin registered before {'run_and_continue' if r['api'] == 'rac' else 'run_continue_and_wait'}() whose {r['hook']} hook {how}")
+    m = []
+    if not r['accepted'] or r['state_during'] != 'running':
+        return [f"scenario failed: the non-interactive run did not start ({r})"]
+    if not r['enabled_during']:
+        m.append(f'{who}: the non-interactive run is in flight, but continuous_enabled is False')
+    if r['commands_at_prompt'] != 1:
+        m.append(f"{who}: the prompt of the non-interactive run was answered {r['commands_at_prompt']} time(s)")
+    if 'never_finished' in r:
+        return m + [f"scenario failed: the state never became 'finished' after the child exited (state {r['never_finished']!r}) ({who})"]
+    if r['hook_entered'] != 1 or r['hook_left'] != 1:
+        return m + [f"scenario failed: the user's hook was entered {r['hook_entered']} and left {r['hook_left']} time(s) ({who})"]
+    if r['enabled_at_finished']:
+        m.append(f"{who}: {SETTLE_ROUNDS} loop turns after the state attribute first read 'finished' "
+                 f"({'the hook was still suspended' if r['user_hook_suspended_then'] else 'the hook had ended'}) continuous_enabled is still True "
+                 + (f"(it went off after {r['rounds_until_off']} turn(s))" if r['rounds_until_off'] is not None else '(it never went off while watched)'))
+    if r['state_after'] != 'finished' or r['enabled_after']:
+        m.append(f"{who}: after the run ended and everything settled the state is {r['state_after']!r} and continuous_enabled is {r['enabled_after']}")
+    if not r['plain_run_started']:
+        return m + [f"scenario failed: the plain run() after reset() did not start ({who})"]
+    if r['enabled_in_plain_run']:
+        m.append(f'{who}: continuous_enabled is True during the plain run() after reset()')
+    if r['commands_in_plain_run']:
+        m.append(f"{who}: the next plain run() (after reset()) was auto-answered ({r['commands_in_plain_run']} command(s) reached the child)")
+    pub = r['published_by_end_of_run']
+    if True not in pub or pub[pub.index(True):].count(False) != 1 or pub[-1] is not False:
+        m.append(f'{who}: publications of the flag up to the end of that run (everything settled): {pub} (expected …, True, False)')
+    later = r['published'][len(pub):]
+    if True in later:
+        m.append(f'{who}: publications of the flag during the reset() and the plain run() that followed: {later} (True is never expected there)')
+    return m
+
+
 def start_overlap_case(watch: str) -> dict:
     """A task that starts a non-interactive run the moment the object becomes 'initialized' — while the task that called start() is
     still inside it."""
@@ -287,4 +445,15 @@ def run(chk: common.Check) -> None:
                              f"({r['commands_in_plain_run']} command(s) reached the child)")
             if m:
                 oracle_fail.append(({'plugin_failure': r}, m, None))
+    for api in ('rac', 'rcw'):
+        for hook_name in USER_HOOKS:
+            for fault in ('raises', 'slow'):
+                for n in (0, 1, 5, 50):
+                    r = user_plugin_case(api, hook_name, fault, n)
+                    chk.cov.case(('user-plugin', api, hook_name, fault, n))
+                    chk.cov.count('kinds', 'user-plugin-hook-raises-at-end-of-non-interactive-run' if fault == 'raises'
+                                  else 'user-plugin-hook-slow-at-end-of-non-interactive-run')
+                    m = user_plugin_oracle(r)
+                    if m:
+                        oracle_fail.append(({'user_plugin': r}, m, None))
     _life.finish(chk, 'C16', oracle_fail, dis, 'continuous flag, its publications, commands reaching the child')
